@@ -16,10 +16,12 @@ import (
 	"encoding/hex"
 	"encoding/pem"
 	"fmt"
+	"io"
 	"math/big"
 	"os"
 	"path/filepath"
 	"strings"
+	"testing/iotest"
 	"time"
 
 	intoto "github.com/in-toto/in-toto-golang/in_toto"
@@ -106,6 +108,18 @@ func init() {
 		data := str(a["pem"])
 		explicit := a["scheme"] != nil
 		switch str(a["via"]) {
+		case "chunked":
+			// a reader that hands out the data in small pieces (one byte, or half of what is asked
+			// for): a loader must read until EOF (seeded change c19-single-read-of-reader)
+			var rd io.Reader = iotest.OneByteReader(strings.NewReader(data))
+			if len(data)%2 == 0 {
+				rd = iotest.HalfReader(strings.NewReader(data))
+			}
+			if explicit {
+				err = key.LoadKeyReader(rd, str(a["scheme"]), anyStrs(a["algs"]))
+			} else {
+				err = key.LoadKeyReaderDefaults(rd)
+			}
 		case "file":
 			p := filepath.Join(scratch(), "key.pem")
 			os.WriteFile(p, []byte(data), 0o600)
@@ -304,7 +318,11 @@ func runC19(r *Runner, tier string, rng *Rng) {
 			der, _ := x509.MarshalPKIXPublicKey(pub)
 			pubPEM = pemOf("PUBLIC KEY", der)
 		}
-		via := rng.Pick([]string{"file", "reader"})
+		via := rng.Pick([]string{"file", "reader", "chunked"})
+		if rng.Chance(8) {
+			// the key lies beyond the first few KiB of the input
+			text = strings.Repeat("\n", 5000) + text
+		}
 		preload := ""
 		if rng.Chance(30) {
 			switch rng.Intn(3) {
@@ -327,5 +345,5 @@ func runC19(r *Runner, tier string, rng *Rng) {
 		}
 	}
 	flush()
-	r.St.Rule = "freshly generated keys (RSA 2048 (thorough: 3072), ECDSA P-224/256/384/521, Ed25519) in every PEM form each supports (PKCS#8, PKCS#1, SEC1, PKIX, certificate), with surrounding whitespace / comment / trailing data, from file and from reader, into a fresh Key object or (30%) into one that already holds other private or public material, default and explicit scheme and id-algorithm lists (valid and invalid), plus truncated, bit-flipped, encrypted, foreign, empty and non-PEM input; compared: ok/err, key type, scheme, presence of private half and certificate, the public half against crypto/x509 encodings, the key id against SHA-256 of the MODEL's canonical preimage, and sign-with-private / verify-with-public across two forms of one pair incl. an independent crypto/* verification. Class = (key kind, form, corruption, explicit scheme, outcome)."
+	r.St.Rule = "freshly generated keys (RSA 2048 (thorough: 3072), ECDSA P-224/256/384/521, Ed25519) in every PEM form each supports (PKCS#8, PKCS#1, SEC1, PKIX, certificate), with surrounding whitespace / comment / trailing data, from file, from reader and from a reader that hands out one byte / half a buffer at a time, sometimes after 5000 blank lines, into a fresh Key object or (30%) into one that already holds other private or public material, default and explicit scheme and id-algorithm lists (valid and invalid), plus truncated, bit-flipped, encrypted, foreign, empty and non-PEM input; compared: ok/err, key type, scheme, presence of private half and certificate, the public half against crypto/x509 encodings, the key id against SHA-256 of the MODEL's canonical preimage, and sign-with-private / verify-with-public across two forms of one pair incl. an independent crypto/* verification. Class = (key kind, form, corruption, explicit scheme, outcome)."
 }
